@@ -60,7 +60,7 @@ fn tier_for(prop: &str, thorough: bool) -> Tier {
         ("C15", false) => Tier { runs: 600_000, secs: 75 },
         ("C15", true) => Tier { runs: 30_000_000, secs: 1200 },
         ("C12", false) => Tier { runs: 14_000, secs: 75 },
-        (_, false) => Tier { runs: 24_000, secs: 75 },
+        (_, false) => Tier { runs: 16_000, secs: 75 },
         (_, true) => Tier { runs: 2_000_000, secs: 1200 },
     }
 }
@@ -306,7 +306,7 @@ impl Drop for ExecPool {
 /// recorded schedule literally, then a few seeded strategies.
 fn schedule_variants(c: &Value, workload_changed: bool) -> Vec<Value> {
     let mut v = vec![c.clone()];
-    let nthreads = c["threads"].as_array().map(|t| t.len()).unwrap_or(0) + c["callers"].as_array().map(|t| t.len()).unwrap_or(0) + c["compilers"].as_array().map(|t| t.len()).unwrap_or(0);
+    let nthreads = c["threads"].as_array().map(|t| t.len()).unwrap_or(0) + c["callers"].as_array().map(|t| t.len()).unwrap_or(0) + c["compilers"].as_array().map(|t| t.len()).unwrap_or(0) + c["sb_ops"].as_array().map(|t| t.len()).unwrap_or(0);
     if workload_changed && nthreads > 1 {
         let base = c["sched_seed"].as_u64().unwrap_or(1);
         for (k, st) in ["targeted", "uniform", "sticky80", "targeted", "pct2/12", "uniform"].iter().enumerate() {
@@ -324,17 +324,17 @@ fn schedule_variants(c: &Value, workload_changed: bool) -> Vec<Value> {
 fn desc_size(d: &Value) -> Vec<u64> {
     let js = |v: &Value| serde_json::to_string(v).map(|s| s.len() as u64).unwrap_or(0);
     let arrs = |k: &str| d[k].as_array().cloned().unwrap_or_default();
-    let threads = (arrs("threads").len() + arrs("callers").len() + arrs("compilers").len()) as u64;
+    let threads = (arrs("threads").len() + arrs("callers").len() + arrs("compilers").len() + arrs("sb_ops").len()) as u64;
     let ops: u64 = d["threads"]
         .as_array()
         .map(|t| t.iter().map(|x| x.as_array().map(|o| o.len() as u64).unwrap_or_else(|| x["ops"].as_array().map(|o| o.len() as u64).unwrap_or(0))).sum())
         .unwrap_or(0)
         + d["setup"].as_array().map(|o| o.len() as u64).unwrap_or(0)
-        + arrs("callers").iter().chain(arrs("compilers").iter()).map(|x| x.as_array().map(|o| o.len() as u64).unwrap_or(0)).sum::<u64>();
+        + arrs("callers").iter().chain(arrs("compilers").iter()).chain(arrs("sb_ops").iter()).map(|x| x.as_array().map(|o| o.len() as u64).unwrap_or(0)).sum::<u64>();
     let faults = d["faults"].as_array().map(|t| t.len() as u64).unwrap_or(0);
     let sched: Vec<u64> = d["schedule"].as_array().map(|a| a.iter().map(|x| x.as_u64().unwrap_or(0)).collect()).unwrap_or_default();
     let switches = sched.windows(2).filter(|w| w[0] != w[1]).count() as u64;
-    vec![threads, ops, faults, js(&d["init"]) + js(&d["threads"]) + js(&d["setup"]) + js(&d["callers"]) + js(&d["compilers"]), switches, sched.len() as u64]
+    vec![threads, ops, faults, js(&d["init"]) + js(&d["threads"]) + js(&d["setup"]) + js(&d["callers"]) + js(&d["compilers"]) + js(&d["sb_ops"]), switches, sched.len() as u64]
 }
 
 /// Greedy minimisation: walk the one-step simplifications in order (simplest
@@ -356,7 +356,7 @@ fn minimise(desc: &Value, class: &str, budget: Duration) -> (Value, u64) {
             let mut flat: Vec<Value> = Vec::new();
             let mut owner: Vec<usize> = Vec::new();
             for (k, c) in cands[i..hi].iter().enumerate() {
-                let changed = c["threads"] != cur["threads"] || c["init"] != cur["init"] || c["faults"] != cur["faults"] || c["setup"] != cur["setup"] || c["callers"] != cur["callers"] || c["compilers"] != cur["compilers"];
+                let changed = c["threads"] != cur["threads"] || c["init"] != cur["init"] || c["faults"] != cur["faults"] || c["setup"] != cur["setup"] || c["callers"] != cur["callers"] || c["compilers"] != cur["compilers"] || c["sb_ops"] != cur["sb_ops"];
                 for v in schedule_variants(c, changed) {
                     flat.push(v);
                     owner.push(k);
